@@ -214,6 +214,7 @@ pub fn feature_modules() -> Vec<(&'static str, String)> {
         m("seq", "S ::= SEQUENCE { a BOOLEAN, b INTEGER OPTIONAL, c UTF8String DEFAULT \"x\", d NULL }"),
         m("set", "S ::= SET { a [0] BOOLEAN, b [1] INTEGER OPTIONAL }"),
         m("choice", "C ::= CHOICE { a BOOLEAN, b INTEGER, ..., c NULL }"),
+        m("names", "Struct ::= SEQUENCE { type BOOLEAN, match-x INTEGER OPTIONAL, self-t Self-T, r-e-f En-um DEFAULT fn } Self-T ::= CHOICE { type NULL, async BOOLEAN, a-b INTEGER (0..7) } En-um ::= ENUMERATED { type, fn, a-b } loop-v INTEGER ::= 3 Of-type ::= SEQUENCE OF Self-T"),
         m("choice-same-types", "L ::= UTF8String (SIZE (1..9)) C2 ::= CHOICE { a L, b L, c BOOLEAN } C3 ::= CHOICE { a INTEGER (0..9), b INTEGER (0..200), c INTEGER (0..100), d NULL } C1 ::= CHOICE { p SEQUENCE { x BOOLEAN }, q SEQUENCE { x BOOLEAN }, r L }"),
         m("of", "A ::= SEQUENCE OF INTEGER B ::= SET OF BOOLEAN C ::= SEQUENCE (SIZE (1..4)) OF UTF8String D ::= SET SIZE (2) OF NULL"),
         m("ext", "S ::= SEQUENCE { a BOOLEAN, ..., [[ b INTEGER, c NULL OPTIONAL ]], d BOOLEAN, [[ 3: e NULL ]] } T ::= SEQUENCE { ..., x BOOLEAN }"),
